@@ -21,7 +21,7 @@ CHECKS = {
     note="Stand-ins for click/jinja2/toposort, no ruff. Element order is compared only where the hidden model has no repeated element or group and, with several samples, leaves the greedy merge of field orders no choice. Regions of the 12 recorded findings are excluded by construction (nil in some samples; elements that are empty in some samples and not in others; attributes missing from some samples of a childless element; array keys absent from a sample; keys that only hold null/[])."),
  "C12": dict(cat="exploration", ref="§C12, §1.1",
     tech="property-based testing (Hypothesis) with a differential oracle across invocation routes: generated source sets (SchemaSpec schemas, XML sample sets, the repository's fixture source sets) x generated configurations are generated in fresh interpreters through the API under three PYTHONHASHSEED values, the API twice in one interpreter, the command line with flags, the command line with a project file, and the command line with --cache cold then warm; all file trees must be byte-identical",
-    text="Generated search; per case seven generator runs in separate processes, compared path by path and byte by byte with the API run under PYTHONHASHSEED=0 (outcomes compared when generation is refused). Searched, not proved; the hash seeds are 2 of 8 fixed values per case.",
+    text="Generated search; per case eight to eleven generator runs in separate processes (hash seeds, API twice, API after a run with other settings, command line with flags, project file, warm cache), compared path by path and byte by byte with the API run under PYTHONHASHSEED=0 (outcomes compared when generation is refused). Searched, not proved; the hash seeds are 2 of 8 fixed values per case.",
     note="Stand-ins for click/jinja2/toposort, no ruff; the click stand-in implements the documented parsing of the declarations xsdata uses, and options the command line does not expose travel in a partial project file. Recorded finding: warm sources cache with WSDL input (excluded by construction, replayed)."),
  "C07": dict(cat="exploration", ref="§C07, §1.1",
     tech="property-based testing (Hypothesis) over generated source sets with a hostile name alphabet (XML Schemas from the SchemaSpec generator, sets of schemas importing each other, irregular XML samples, irregular JSON samples) x the whole output-option space; oracles = outcome classification (success or the generator's own CodegenError), import of every generated module, XmlContext.build + instantiation of every generated class, AST scan of the generated source for names bound twice",
@@ -33,7 +33,7 @@ CHECKS = {
     note="Code generation runs through stand-ins for click/jinja2/toposort and without ruff (self-tested against the 28 committed fixture outputs, AST-equal). Global element refs, substitution groups, named groups and attribute groups are generated; a second family generates 3-5 schemas importing each other (type names recurring across namespaces); xs:include and mixed content are not generated (mixed: four recorded findings), wrapper_fields stays off and the regions of the recorded findings (known_findings.json, 19 entries) are excluded by construction. 'Circular Dependencies' / 'strongly connected types' CodegenErrors are accepted as the documented refusal for non-cluster structure styles."),
  "C19": dict(cat="exploration", ref="§C19",
     tech="schedule exploration with a harness-owned cooperative scheduler (yield points = traced lines touching shared state, installed with threading.settrace): exhaustive single-preemption enumeration for fixed program pairs + property-based (Hypothesis) generation of thread programs and multi-preemption schedules + a free-running stress run; oracle = differential against the sequential outcome on fresh instances",
-    text="Threads run generated programs over one shared XmlContext and shared parsers/serializers; the scheduler owns every interleaving decision at line granularity inside the anchored code. Every single preemption of 21 two-thread program pairs is explored, plus generated schedules with up to 4 preemptions for 2-4 threads; each operation's outcome must equal its sequential outcome. Exhaustive for single preemptions of the listed pairs at the chosen yield points, searched elsewhere.",
+    text="Threads run generated programs over one shared XmlContext and shared parsers/serializers; the scheduler owns every interleaving decision at line granularity inside the anchored code. Every single preemption of 24 two-thread program pairs is explored, plus generated schedules with up to 4 preemptions for 2-4 threads; each operation's outcome must equal its sequential outcome. Exhaustive for single preemptions of the listed pairs at the chosen yield points, searched elsewhere.",
     note="Interleavings are modelled at line granularity in context.py (shared-cache lines), models/elements.py, parsers/nodes/union.py and the parser entry points only; no source hooks are used. Recorded warnings are not compared (warnings.catch_warnings is process-global)."),
  "C14": dict(cat="exploration", ref="§C14",
     tech="bounded-exhaustive enumeration of operation histories + Hypothesis rule-based state machine (stateful testing); oracle = differential against freshly constructed context/parser/serializer instances after every step",
